@@ -385,13 +385,6 @@ Ltac refute M := exists M, M; split; [vm_compute; reflexivity|]; split; [apply t
 Lemma refuted_casefold : exists M order, wfM M = true /\ topo M order /\ wf_table_names_unique (gen M order) = false.
 Proof. refute M_casefold. Qed.
 
-(* still open: C06-p, the foreign-key column of a reference named like a relationship of an ancestor *)
-Definition M_inhrelalias : cmodel :=
-  [kls "Tgt" [] [fld "v" SPlain (EB BInt)]; kls "Pa" [] [fld "g_id" SOpt (ECls "Tgt")]; kls "Ch" ["Pa"] [fld "g" SOpt (ECls "Tgt")]].
-Lemma refuted_inhrelalias : exists M order, wfM M = true /\ topo M order /\ refused (gen M order) = false
-  /\ wf_no_inherited_rel_clash (gen M order) = false /\ F_inherited_rel M = false.
-Proof. refute M_inhrelalias. Qed.
-
 (* regression examples.  C06-a (c757abc): the collection of the own class now has two distinct association columns *)
 Lemma fixed_selfcoll : wfM M_selfcoll = true /\ inF M_selfcoll = true /\ wf_assoc_columns (gen M_selfcoll M_selfcoll) = true
   /\ schema_wf (gen M_selfcoll M_selfcoll) = true /\ model_obs (gen M_selfcoll M_selfcoll) = spec_obs M_selfcoll.
@@ -408,6 +401,10 @@ Lemma refused_assocname : refused_as_specified M_assocname. Proof. repeat split;
 Definition M_inhfkalias : cmodel :=
   [kls "Tgt" [] [fld "v" SPlain (EB BInt)]; kls "Pa" [] [fld "x" SOpt (ECls "Tgt")]; kls "Ch" ["Pa"] [fld "x_id" SPlain (EB BInt)]].
 Lemma refused_inhfkalias : refused_as_specified M_inhfkalias. Proof. repeat split; vm_compute; reflexivity. Qed.
+(* C06-p (84214c3): the foreign-key column of a reference g beside an inherited reference named g_id *)
+Definition M_inhrelalias : cmodel :=
+  [kls "Tgt" [] [fld "v" SPlain (EB BInt)]; kls "Pa" [] [fld "g_id" SOpt (ECls "Tgt")]; kls "Ch" ["Pa"] [fld "g" SOpt (ECls "Tgt")]].
+Lemma refused_inhrelalias : refused_as_specified M_inhrelalias. Proof. repeat split; vm_compute; reflexivity. Qed.
 
 (* regression example for the repaired C06-b: a model without any builtin-typed public field is now well-formed *)
 Lemma fixed_nobuiltin : wfM M_nobuiltin = true /\ inF M_nobuiltin = true /\ wf_imports (gen M_nobuiltin M_nobuiltin) = true
